@@ -22,6 +22,12 @@ BACKEND-STATELESS - an attribute of the backend filled while scheduling is
 reset by execute_tasks (nothing of one run decides in the next).
 ENQ-INPUTS - no argument bound to the decision before the atomic region is
 computed from the environment (no status / clock read hoisted out of it).
+DO-ONCE - <task>.do(env, config) occurs at one site per backend function,
+not inside a loop that does not take a new task (no retry: a task runs once
+and the outcome reported is that of its only execution).
+STATUS-WRITERS - in the backends a task status is written only by the
+decision function (REL rows), by the master loop in front of it (REL prelude
+rows) and by the worker around Task.do (WRK): no other transition exists.
 Not decided: equality of the final status map across interleavings as such
 (it follows from these rules by argument, no rule computes it).
 '''
@@ -37,14 +43,17 @@ ASSUMPTIONS = [
 def check(ctx):
     ctx.run(sched_rel.check_rel, {'REL-1', 'REL-2', 'REL-3', 'REL-4'})
     ctx.run(sched_rel.check_enq)
-    shared = sched_worker.analyse_worker(ctx)
-    ctx.run(sched_worker.check_wrk2, shared)
-    ctx.run(sched_worker.check_wrk1, shared)
-    ctx.run(sched_worker.check_raw_lock, shared)
+    shared = ctx.run(sched_worker.analyse_worker)
+    if shared is not None:
+        ctx.run(sched_worker.check_wrk2, shared)
+        ctx.run(sched_worker.check_wrk1, shared)
+        ctx.run(sched_worker.check_raw_lock, shared)
     ctx.run(sched_rel.check_graph_whole)
     ctx.run(sched_rel.check_graph_rebound)
     ctx.run(sched_rel.check_decision_inputs)
     ctx.run(sched_worker.check_backend_stateless)
+    ctx.run(sched_rel.check_status_writers)
+    ctx.run(sched_worker.check_do_once)
     ctx.run(patterns.check_patterns, ID)
 
 
